@@ -462,6 +462,7 @@ const strSubAxioms = `
 `
 
 const strCatAxioms = `
+(assert (forall ((x Str) (y Str) (z Str)) (! (= (str_cat (str_cat x y) z) (str_cat x (str_cat y z))) :pattern ((str_cat (str_cat x y) z)))))
 (assert (forall ((x Str) (y Str)) (! (= (str_len (str_cat x y)) (+ (str_len x) (str_len y))) :pattern ((str_cat x y)))))
 (assert (forall ((x Str) (y Str) (i Int)) (! (=> (and (<= 0 i) (< i (str_len x))) (= (str_at (str_cat x y) i) (str_at x i))) :pattern ((str_at (str_cat x y) i)))))
 (assert (forall ((x Str) (y Str) (i Int)) (! (=> (and (<= (str_len x) i) (< i (+ (str_len x) (str_len y)))) (= (str_at (str_cat x y) i) (str_at y (- i (str_len x))))) :pattern ((str_at (str_cat x y) i)))))
